@@ -5,15 +5,20 @@ open Bmc Bmc.Gen.Enc Bmc.Lemmas.GenEnc Bmc.Wire Bmc.Wire.Req Bmc.GoEnc
 
 /-- the layers translated when this file was delivered; a layer the translator no longer manages is a broken obligation -/
 theorem translated_ok : ∀ n ∈ [
-    "dcmi.GetDCMICapabilitiesInfoReq", "dcmi.GetDCMISensorInfoReq", "dcmi.GetPowerReadingReq", "ipmi.ChassisControlReq",
+    "dcmi.GetDCMICapabilitiesInfoReq", "dcmi.GetDCMISensorInfoReq", "dcmi.GetPowerReadingReq", "ipmi.AES128CBC", "ipmi.ChassisControlReq",
     "ipmi.CloseSessionReq", "ipmi.GetChannelAuthenticationCapabilitiesReq", "ipmi.GetChannelCipherSuitesReq",
     "ipmi.GetSDRReq", "ipmi.GetSensorReadingReq", "ipmi.GetSessionInfoReq", "ipmi.Message", "ipmi.OpenSessionReq",
     "ipmi.RAKPMessage1", "ipmi.RAKPMessage3", "ipmi.SetSessionPrivilegeLevelReq", "ipmi.V1Session", "ipmi.V2Session"],
     n ∈ Bmc.Gen.Enc.translated := by decide
 
-/-- the helpers kept as uninterpreted function parameters are exactly these two (one more would weaken a theorem below
-    silently only if its statement did not mention it — it does: the parameter is part of the definition's type) -/
+/-- the translator gives up on no `SerializeTo` method of `pkg/ipmi` / `pkg/dcmi` -/
+theorem gaveUp_empty : Bmc.Gen.Enc.gaveUp = [] := by decide
+
+/-- the parameters of the regenerated definitions are exactly these: two helpers kept as uninterpreted functions, and the two
+    external calls of `AES128CBC.SerializeTo` (the draw of the IV, CBC encryption) — one more would weaken a theorem silently
+    only if its statement did not mention it; it does: the parameter is part of the definition's type -/
 theorem uninterpreted_ok : Bmc.Gen.Enc.uninterpreted
-    = ["dcmi.GetPowerReadingReq: dcmi_rollingAvgPeriodByte", "ipmi.V2Session: ipmi_executeHash_integrityAlgorithm"] := by decide
+    = ["dcmi.GetPowerReadingReq: dcmi_rollingAvgPeriodByte", "ipmi.AES128CBC: rand_Read", "ipmi.AES128CBC: cipher_encryptCBC",
+       "ipmi.V2Session: ipmi_executeHash_integrityAlgorithm"] := by decide
 
 end Bmc.Proofs.GenEnc
